@@ -539,6 +539,8 @@ class MoveModule:
             job_set.started_job(module.path)
             if module == self.source:
                 self._change_moving_module(changes, dest)
+            elif self.source.is_folder() and self.source.contains(module):
+                self._change_moving_module(changes, dest, module)
             else:
                 source = self._change_occurrences_in_module(dest, resource=module)
                 if source is not None:
@@ -557,15 +559,19 @@ class MoveModule:
     def _new_import(self, dest):
         return importutils.NormalImport([(self._new_modname(dest), None)])
 
-    def _change_moving_module(self, changes, dest):
-        if not self.source.is_folder():
-            pymodule = self.project.get_pymodule(self.source)
+    def _change_moving_module(self, changes, dest, module=None):
+        # `module` is a module inside the moving package; its relative
+        # imports would otherwise be resolved against the new location
+        if module is None:
+            module = self.source
+        if not module.is_folder():
+            pymodule = self.project.get_pymodule(module)
             source = self.import_tools.relatives_to_absolutes(pymodule)
             pymodule = self.tools.new_pymodule(pymodule, source)
             source = self._change_occurrences_in_module(dest, pymodule)
             source = self.tools.new_source(pymodule, source)
-            if source != self.source.read():
-                changes.add_change(ChangeContents(self.source, source))
+            if source != module.read():
+                changes.add_change(ChangeContents(module, source))
 
     def _change_occurrences_in_module(self, dest, pymodule=None, resource=None):
         if not self.tools.occurs_in_module(pymodule=pymodule, resource=resource):
